@@ -68,6 +68,12 @@ class C01:
                 r = results.get(mi)
                 if r is None:
                     V("not-submitted", "message %d was never submitted (timer callback not run)" % mi, m["ctx"])
+                elif r[1] is False and N.multi(params, m) and any(
+                        m2.get("_retry_until") is not None and m2["src"] == m["src"] and N.dest_addr(params, m2) == N.dest_addr(params, m)
+                        for m2 in params["msgs"]):
+                    # a retrying call for the same pair may have got in first (a call from a timer callback can be late by the
+                    # time the job thread spends writing frames): then this refusal is correct
+                    pass
                 elif r[1] is False:
                     V("refused-when-free", "send_pgn returned False for message %d (%s, %d bytes) although no "
                       "transfer is in progress on that pair" % (mi, m["kind"], m["pl"]["n"]), m["kind"])
